@@ -23,6 +23,22 @@ order, self-closing vs empty-pair form, XML prolog and comments before `<KSR`), 
 sibling permutations and whole-tree shuffles of small documents.  Schema-conformant shapes on which the
 pinned reader is known to differ are generated on purpose, one per document, so that each difference is
 attributable to a stable key.
+
+DUPLICATES among siblings (stream "duplicates"; the schema has no uniqueness constraint): two or three
+sibling versions of one element that agree in their identifying attribute / some fields and differ in
+others, or are repeated verbatim (xmlgen.DUP_KINDS: <Key> with equal keyIdentifier — other key material
+with the old or the right key tag, same material with other keyTag / Flags / TTL, verbatim, verbatim in
+another lexical form; <Signature> with equal keyIdentifier — other data / key tag / expiration, verbatim;
+<Signer> repeated; <SignatureAlgorithm> with equal number — other size / exponent, verbatim; bundles with
+equal id — another period, verbatim), placed in generated documents, in the ARCHIVED genuinely signed KSRs /
+SKRs of /repo's test data and in honestly signed requests made from the fixture keys (so that validation
+ACCEPTS the unduplicated document), each in EVERY order of the group plus shuffles of all children of the
+parent.  Judged like every other document — against the ElementTree reading mapped through the data
+model's own equality (keys, signatures, signers and algorithms are SETS of value objects: verbatim
+duplicates, also in another lexical form, are one member; anything that differs in a field is another
+member; bundles are a list) — and additionally: the VERDICT of validation (validate_request /
+validate_response under the policy that accepts the unduplicated document, and under the default policy)
+must be the same for every order.  The verdict is also computed for the plain permutation stream.
 """
 
 from __future__ import annotations
@@ -48,9 +64,11 @@ ASSUMPTIONS = [
     "a dateTime without a time zone is UTC (the tool's documented reading); only UTC spellings are generated (non-UTC times are C13's subject: rejected)",
     "attribute values are generated without tab / CR / LF (XML attribute-value normalisation would turn them into spaces) and without `<`, `&`, `\"`; element texts without `<`, `&`",
     "algorithm numbers are drawn from those the data classes can represent (5, 8, 10 with an RSA child; 13, 14 with an ECDSA child)",
-    "python `set` fields are compared as sorted lists; duplicate keys / signatures within a bundle are not generated",
+    "python `set` fields are compared as sorted lists; the standard parser's reading is mapped through the data model's equality before the comparison: keys, signatures, signers "
+    "and policy algorithms are sets of value objects (members equal in EVERY field — after the schema type's lexical-to-value mapping — are one member), bundles are a list",
+    "validation verdicts are compared as outcome classes (accepted / policy violation by rule / other error by class); the clock of the horizon rule is pinned 5 days before the first inception of the document",
     "end tags are written exactly as `</name>`: white space inside an END tag (`</Request >`, XML-legal) is outside the property's plain form (it speaks of start tags) — the reader rejects it with ValueError, which C13's syntax dictionary covers as an accept-or-reject case",
-    "bundle ids are pairwise distinct within a document (the schema does not say so, validation demands it): with equal (expiration, inception, id) two bundles may still come out in document order (KskmProofs.C12 C12_order_key_tie)",
+    "bundles with equal ids are generated with different times or verbatim (stream duplicates); with equal (expiration, inception, id) and DIFFERENT content two bundles may still come out in document order (KskmProofs.C12 C12_order_key_tie): not generated",
 ]
 TRUSTED = ["xml.etree.ElementTree as the standard XML parser", "harness/xmlgen.py (generator) — cross-checked against et_extract on every document"]
 
@@ -234,6 +252,35 @@ def et_extract(text: str) -> dict[str, Any]:
     return canon_obj(out)
 
 
+def as_data_model(j: Any) -> Any:
+    """The reading of a standard parser (element LISTS) mapped through the equality of the repository's data
+    model: `keys`, `signatures`, `signers` of a bundle and `algorithms` of a policy are sets of frozen value
+    objects — members that agree in every field are one member.  Bundles stay a list."""
+    if not isinstance(j, dict) or "bundles" not in j:
+        return j
+
+    def uniq(xs: list[Any]) -> list[Any]:
+        seen: set[str] = set()
+        out = []
+        for x in xs:
+            k = json.dumps(x, sort_keys=True)
+            if k not in seen:
+                seen.add(k)
+                out.append(x)
+        return out
+
+    j = json.loads(json.dumps(j))
+    for b in j["bundles"]:
+        b["keys"] = uniq(b["keys"])
+        b["signatures"] = uniq(b["signatures"])
+        if b.get("signers") is not None:
+            b["signers"] = uniq(b["signers"])
+    for p in ("zskPolicy", "kskPolicy"):
+        if p in j:
+            j[p]["algorithms"] = uniq(j[p]["algorithms"])
+    return canon_obj(j)
+
+
 def unordered(j: Any) -> Any:
     """the same data with the bundle list as a multiset"""
     if not isinstance(j, dict) or "bundles" not in j:
@@ -266,21 +313,71 @@ def features_of(doc: dict[str, Any]) -> set[str]:
     return f
 
 
+def first_inception(text: str) -> int | None:
+    try:
+        return min(b["inception"] for b in et_extract(text)["bundles"])
+    except Exception:  # noqa: BLE001
+        return None
+
+
+def duplicate_sources(r: Any, quick: bool) -> list[dict[str, Any]]:
+    """The documents that are given duplicate siblings: generated ones (random data: validation refuses them
+    early), the archived KSRs / SKRs of /repo's test data and honestly signed requests from the fixture keys
+    (validation ACCEPTS them under the first policy listed, so a verdict can flip both ways)."""
+    from datetime import datetime, timedelta, timezone
+
+    import ceremony
+    import keys as K
+
+    out: list[dict[str, Any]] = []
+    for i in range(5 if quick else 24):
+        kind = "request" if i % 5 < 3 else "response"
+        doc = xmlgen.gen_doc(r, kind, nbundles=1 + i % 3, small=True, rich_ids=(i % 4 == 3))
+        out.append({"name": f"generated-{kind}-{i}", "kind": kind, "tree": xmlgen.to_tree(doc, r), "policies": [kind + "-default"], "big": False})
+    # honestly signed requests: RSA 1024 / 2048 and P-256 fixture keys, 1..3 bundles, 1..2 keys per bundle
+    for i in range(3 if quick else 12):
+        pool = [("ZSK-a", r.choice(K.rsa_keys(1024, 65537)), 8), ("ZSK-b", r.choice(K.rsa_keys(2048, 65537)), r.choice([8, 10])), ("ZSK-c", r.choice(K.ec_keys("P-256")), 13)]
+        layout = [[[0]], [[0], [0, 1]], [[0, 1], [1], [1, 2]], [[2], [2, 0]]][i % 4]
+        used = sorted({j for l in layout for j in l})
+        req = ceremony.honest_request(pool, layout, start=datetime(2030, 1, 1, tzinfo=timezone.utc) + timedelta(days=90 * i), req_id=f"honest-{i}", bundle_prefix=f"h{i}-bundle")
+        pol = {
+            "num_bundles": len(layout), "num_keys_per_bundle": [len(l) for l in layout], "num_different_keys_in_all_bundles": len(used),
+            "rsa_approved_key_sizes": sorted({pool[j][1].k * 8 for j in used if pool[j][1].kind == "rsa"}) or [2048],
+            "rsa_approved_exponents": sorted({pool[j][1].e for j in used if pool[j][1].kind == "rsa"}) or [65537],
+            "approved_algorithms": ["RSASHA256", "RSASHA512", "ECDSAP256SHA256"], "check_cycle_length": False, "enable_unsupported_ecdsa": True,
+        }
+        out.append({"name": f"honest-{i}", "kind": "request", "tree": xmlgen.tree_from_xml(ceremony.request_to_xml(req)), "policies": ["request:" + json.dumps(pol, sort_keys=True), "request-default"], "big": False})
+    # the archive
+    data = lib.REPO / "src/kskm"
+    for f in sorted(data.glob("*/tests/data/*.xml")):
+        kind = "request" if f.name.startswith("ksr") else "response"
+        pols = ["request-default", "request-relaxed"] if kind == "request" else ["response-default"]
+        out.append({"name": "archived:" + f.name, "kind": kind, "tree": xmlgen.tree_from_xml(f.read_text()), "policies": pols, "big": True})
+    return out
+
+
 def run(tier: str, driver_ok: bool) -> Result:
     res = Result("C12")
     res.rule = (
         "grammar-based documents over schema/ksr.rnc (requests and responses; 1..9 bundles, 1..3 keys, 1..3 signatures, 0/2/3 signers, 1..3 algorithms RSA+ECDSA) x random layouts "
         "(inter-element whitespace incl. none/tabs/CRLF, spaces+tabs in start tags, attribute order, 4 empty-element forms, padded collapsible texts, 6 prologs); canonical layout; "
         "every single-node sibling permutation and whole-tree shuffles of small documents; one risky feature per document in dedicated streams; "
-        "a case is non-trivial when its text is new"
+        "duplicates among siblings (19 kinds: Key / Signature with equal keyIdentifier differing in material, tag, flags, TTL, data, times or verbatim / respelled; repeated Signer; "
+        "SignatureAlgorithm with equal number; bundles with equal id) x 2 or 3 versions in generated, honestly signed and archived documents x every order of the group + shuffles of the parent, "
+        "read AND validated (verdict must not depend on the order); a case is non-trivial when its text is new"
     )
     r = lib.rng("C12")
     quick = tier == "quick"
     cases: list[dict[str, Any]] = []
 
-    def add(stream: str, doc: dict[str, Any], text: str, feature: str | None = None, base: int | None = None, label: str = "") -> int:
-        cases.append({"stream": stream, "kind": doc["kind"], "doc": doc, "text": text, "feature": feature, "base": base, "label": label})
+    def add(stream: str, doc: dict[str, Any] | None, text: str, feature: str | None = None, base: int | None = None, label: str = "", **kw: Any) -> int:
+        c = {"stream": stream, "kind": doc["kind"] if doc is not None else kw["kind"], "doc": doc, "text": text, "feature": feature, "base": base, "label": label}
+        c.update(kw)
+        cases.append(c)
         return len(cases) - 1
+
+    def now_of(doc: dict[str, Any]) -> int:
+        return min(b["inception"] for b in doc["bundles"]) - 5 * xmlgen.DAY
 
     # 1. random documents x random layouts
     for i in range(3600 if quick else 30000):
@@ -299,10 +396,11 @@ def run(tier: str, driver_ok: bool) -> Result:
         doc = xmlgen.gen_doc(r, kind, nbundles=2 + i % 2, small=True)
         tree = xmlgen.to_tree(doc, r)
         seed = r.getrandbits(32)
-        base = add("permutation-base", doc, xmlgen.render(tree, xmlgen.Layout(random.Random(seed), permute_attrs=False)))
+        vkw = {"validate": [kind + "-default"], "now": now_of(doc)}
+        base = add("permutation-base", doc, xmlgen.render(tree, xmlgen.Layout(random.Random(seed), permute_attrs=False)), **vkw)
         for label, t2 in xmlgen.all_sibling_permutations(tree, max_children=4, limit=70 if quick else 150):
             feat = "response-bundle-permutation" if kind == "response" and label.startswith("Response:") else None
-            add("permutation", doc, xmlgen.render(t2, xmlgen.Layout(random.Random(seed), permute_attrs=False)), feature=feat, base=base, label=label)
+            add("permutation", doc, xmlgen.render(t2, xmlgen.Layout(random.Random(seed), permute_attrs=False)), feature=feat, base=base, label=label, **vkw)
         for k in range(6):
             # whole-tree shuffles keep the bundle order of responses (their order is reported on its own, above)
             t2 = xmlgen.shuffle_all(tree, r)
@@ -312,7 +410,7 @@ def run(tier: str, driver_ok: bool) -> Result:
                 bs = sorted([c for c in inner.children if c.name == "ResponseBundle"], key=lambda c: order.index(dict(c.attrs)["id"]))
                 it = iter(bs)
                 inner.children = [next(it) if c.name == "ResponseBundle" else c for c in inner.children]
-            add("permutation", doc, xmlgen.render(t2, xmlgen.Layout(r)), base=base, label=f"shuffle-all-{k}")
+            add("permutation", doc, xmlgen.render(t2, xmlgen.Layout(r)), base=base, label=f"shuffle-all-{k}", **vkw)
     # 4. risky features, one per document
     nf = 40 if quick else 300
     for i in range(nf):
@@ -355,6 +453,33 @@ def run(tier: str, driver_ok: bool) -> Result:
                             s["keyIdentifier"] = ">" + old
             add("feature", doc, xmlgen.render(xmlgen.to_tree(doc, r), xmlgen.Layout(r)), feature="gt-in-attribute-value")
 
+    # 5. duplicates among siblings, in every order of the group
+    dup_kinds = list(xmlgen.DUP_KINDS)
+    for si, src in enumerate(duplicate_sources(r, quick)):
+        tree = src["tree"]
+        plain = xmlgen.render(tree, xmlgen.Layout(r))
+        now = first_inception(plain)
+        now = None if now is None else now - 5 * xmlgen.DAY
+        kw = {"kind": src["kind"], "validate": src["policies"], "now": now, "source": src["name"]}
+        add("duplicates", None, plain, label=src["name"] + ":unduplicated", dup="none", **kw)
+        if src["big"] and quick:
+            kinds = [dup_kinds[(si * 5 + j * 4) % len(dup_kinds)] for j in range(5)]
+        else:
+            kinds = dup_kinds
+        for dk in kinds:
+            for copies in ((2, 3) if not src["big"] else (r.choice([2, 2, 3]),)):
+                x = xmlgen.add_duplicates(tree, r, dk, copies)
+                if x is None:
+                    continue
+                t2, ppath, idxs = x
+                seed = r.getrandbits(32)
+                lab = f"{src['name']}:{dk}x{copies}"
+                base = add("duplicates", None, xmlgen.render(t2, xmlgen.Layout(random.Random(seed), permute_attrs=False)), label=lab, dup=dk, **kw)
+                for olabel, t3 in xmlgen.group_orders(t2, ppath, idxs):
+                    add("duplicates", None, xmlgen.render(t3, xmlgen.Layout(random.Random(seed), permute_attrs=False)), base=base, label=lab + ":" + olabel, dup=dk, **kw)
+                for k in range(1 if src["big"] and quick else 2):
+                    add("duplicates", None, xmlgen.render(xmlgen.shuffle_children(t2, ppath, r), xmlgen.Layout(r)), base=base, label=lab + f":shuffle-parent-{k}", dup=dk, **kw)
+
     # 0. corpus: minimised documents of the recorded findings (and their baseline), judged like the rest
     corpus: list[dict[str, Any]] = []
     for f in sorted((lib.VERIF / "corpus").glob("C12_*.json")):
@@ -365,7 +490,10 @@ def run(tier: str, driver_ok: bool) -> Result:
     model = drive([{"op": op[c["kind"]], "s": hx(c["text"])} for c in cases]) if driver_ok else [None] * len(cases)
     tasks = []
     for c, m in zip(cases, model):
-        tasks.append(({"kind": op[c["kind"]], "text": c["text"]}, HANG_CONFIRM_BUDGET * 2 if m == "hang" else BUDGET))
+        task = {"kind": op[c["kind"]], "text": c["text"]}
+        if c.get("validate"):
+            task.update({"validate": c["validate"], "now": c.get("now")})
+        tasks.append((task, HANG_CONFIRM_BUDGET * 2 if m == "hang" else BUDGET))
     ctasks = []
     for e in corpus:
         ctasks.append(({"kind": e["kind"], "text": e["text"]}, BUDGET))
@@ -397,12 +525,27 @@ def run(tier: str, driver_ok: bool) -> Result:
             if impl2 != impl:
                 res.violation(WHAT, dict(case, text=e["permuted"], label="siblings permuted"), key=e["key"], impl=_short(impl2), impl_on_unpermuted=_short(impl), note="result depends on the document order of siblings", unpermuted_text=e["text"])
     impls: list[Any] = []
+    verdicts: list[Any] = []
     for c, o, m in zip(cases, outs, model):
         impl = o.get("outcome") if not (o.get("timeout") or o.get("died")) else {"hang": True}
         impls.append(impl)
+        verdicts.append(o.get("verdicts"))
+    accepted_sources: set[str] = set()
 
     for i, (c, impl, m) in enumerate(zip(cases, impls, model)):
         doc = c["doc"]
+        # the standard parser's reading, mapped through the data model's equality (sets of value objects)
+        try:
+            std: Any = {"ok": as_data_model(et_extract(c["text"]))}
+        except (SchemaError, ET.ParseError) as exc:
+            std = {"error": f"{type(exc).__name__}: {exc}"}
+        if doc is None:
+            # documents that do not come with the generator's record of their data (archived / duplicated trees):
+            # the risky shapes are read off the standard parser's reading
+            if "ok" not in std:
+                res.disagreement("harness self-test: a duplicated document is not schema-conformant for the ElementTree extractor", {"stream": c["stream"], "label": c["label"], "text": c["text"]}, None, _short(std))
+                continue
+            doc = {"kind": c["kind"], "timestamp": std["ok"]["timestamp"], "bundles": std["ok"]["bundles"]}
         feats = features_of(doc)
         if c["feature"] in ("space-in-attrless-start-tag", "gt-in-attribute-value", "response-bundle-permutation"):
             feats.add(c["feature"])
@@ -413,22 +556,26 @@ def run(tier: str, driver_ok: bool) -> Result:
         key = "+".join(sorted(FEATURE_KEY[f] for f in named)) if named else f"none:{c['stream']}"
         if "timestamp" in feats and doc["kind"] == "response":
             key = key.replace("timestamp-on-request", "timestamp-on-response")
+        if c.get("dup") and not open_feats:
+            key = "duplicate-siblings:" + c["dup"]
         case = {"stream": c["stream"], "kind": op[c["kind"]], "feature": c["feature"], "label": c["label"], "text": c["text"]}
+        if c.get("validate"):
+            case.update({"validate": c["validate"], "now": c.get("now")})
+        if c.get("dup"):
+            res.bump("duplicates:" + c["dup"])
+            res.bump("duplicates-source:" + c["source"].split("-")[0].split(":")[0])
         res.count(c["text"])
         res.bump("stream:" + c["stream"])
         res.bump("kind:" + c["kind"])
         res.bump(f"bundles:{len(doc['bundles'])}")
         for f in feats:
             res.bump("feature:" + f)
-        # the standard parser's reading, and the harness self-test: it must be what the generator put in
-        try:
-            std: Any = {"ok": et_extract(c["text"])}
-        except (SchemaError, ET.ParseError) as exc:
-            std = {"error": f"{type(exc).__name__}: {exc}"}
-        want = {"ok": canon_obj(xmlgen.expected_j(doc))}
-        if unordered(std.get("ok")) != unordered(want["ok"]) or (c["base"] is None and c["stream"] != "feature" and std != want):
-            res.disagreement("harness self-test: ElementTree extractor != what the generator wrote", case, _short(std), _short(want))
-            continue
+        # the harness self-test: the standard parser's reading must be what the generator put in
+        if c["doc"] is not None:
+            want = {"ok": as_data_model(xmlgen.expected_j(doc))}
+            if unordered(std.get("ok")) != unordered(want["ok"]) or (c["base"] is None and c["stream"] != "feature" and std != want):
+                res.disagreement("harness self-test: ElementTree extractor != what the generator wrote", case, _short(std), _short(want))
+                continue
         # 1. implementation vs standard parser (bundle order aside)
         differs = False
         if impl == {"hang": True}:
@@ -457,6 +604,23 @@ def run(tier: str, driver_ok: bool) -> Result:
                 res.violation(WHAT, case, key=key if feats else "order:" + c["label"].split(":")[0], impl=_short(impl), impl_on_unpermuted=_short(b_impl), note="result depends on the document order of siblings", unpermuted_text=cases[c["base"]]["text"])
             else:
                 res.bump("impl:order-independent")
+        # 2b. the verdict of validation must not depend on the order either
+        v = verdicts[i]
+        if v is not None:
+            for pname, vd in v.items():
+                res.bump("verdict:" + ("accepted" if vd == {"ok": True} else "policy-violation" if "violation" in vd else "error"))
+            if c.get("dup") == "none" and v.get(c["validate"][0]) == {"ok": True}:
+                accepted_sources.add(c["source"])
+            if c["base"] is not None and verdicts[c["base"]] is not None:
+                bv = verdicts[c["base"]]
+                if v != bv:
+                    res.bump("verdict:order-dependent")
+                    res.violation(
+                        WHAT, case, key=(key if feats and not c.get("dup") else ("order-verdict:" + (c.get("dup") or c["label"].split(":")[0]))), verdicts=v, verdicts_on_unpermuted=bv,
+                        note="the verdict of validation depends on the document order of siblings", unpermuted_text=cases[c["base"]]["text"],
+                    )
+                else:
+                    res.bump("verdict:order-independent")
         # 3. the tie
         if m is None:
             continue
@@ -477,6 +641,10 @@ def run(tier: str, driver_ok: bool) -> Result:
             res.soft_error_kind_mismatch += 1
         if len(res.samples) < 4 and c["stream"] == "random-layout" and r.random() < 0.01:
             res.sample({"stream": c["stream"], "input": c["text"][:400], "impl==model": impl == mc, "impl==ElementTree": not differs})
+    # non-vacuity of the verdict comparison: the unduplicated signed documents are ACCEPTED under their first policy
+    res.stats["duplicates:sources-accepted-unduplicated"] = sorted(accepted_sources)
+    if not any(x.startswith("honest") for x in accepted_sources) or not any(x.startswith("archived:ksr") for x in accepted_sources) or not any(x.startswith("archived:skr") for x in accepted_sources):
+        res.disagreement("harness self-test: no honestly signed / archived document is accepted by validation before duplicates are added (the verdict comparison would be vacuous)", {"stream": "duplicates"}, sorted(accepted_sources), None)
     if driver_ok:
         regex_diff.run(res, "quick", "C12-regex")
     return res
@@ -485,16 +653,26 @@ def run(tier: str, driver_ok: bool) -> Result:
 def replay(obj: dict[str, Any]) -> Any:
     v = obj.get("violation") or obj.get("disagreement") or {}
     c = v.get("case") or {}
-    out: dict[str, Any] = {"recorded": {k: _short(v.get(k)) for k in ("what", "key", "impl", "expected", "model", "note")}}
+    out: dict[str, Any] = {"recorded": {k: _short(v.get(k)) for k in ("what", "key", "impl", "expected", "model", "note", "verdicts", "verdicts_on_unpermuted")}}
     if "text" not in c:
         return out
     out["text"] = c["text"] if len(c["text"]) < 3000 else c["text"][:3000] + "..."
     out["model_now"] = _short(canon_outcome(drive([{"op": c["kind"], "s": hx(c["text"])}])[0]))
+    task = {"kind": c["kind"], "text": c["text"]}
+    if c.get("validate"):
+        task.update({"validate": c["validate"], "now": c.get("now")})
     with WatchdogPool(1) as pool:
-        o = pool.run([({"kind": c["kind"], "text": c["text"]}, BUDGET)])[0]
+        o = pool.run([(task, BUDGET)])[0]
+        o2 = pool.run([(dict(task, text=v["unpermuted_text"]), BUDGET)])[0] if v.get("unpermuted_text") else None
     out["implementation_now"] = _short(o.get("outcome", o))
+    if "verdicts" in o:
+        out["verdicts_now"] = o["verdicts"]
+    if o2 is not None:
+        out["implementation_now_on_unpermuted"] = _short(o2.get("outcome", o2))
+        if "verdicts" in o2:
+            out["verdicts_now_on_unpermuted"] = o2["verdicts"]
     try:
-        out["standard_parser_now"] = _short(et_extract(c["text"]))
+        out["standard_parser_now"] = _short(as_data_model(et_extract(c["text"])))
     except Exception as exc:  # noqa: BLE001
         out["standard_parser_now"] = f"{type(exc).__name__}: {exc}"
     return out
